@@ -1,4 +1,4 @@
-use std::collections::{HashMap, HashSet};
+use std::collections::{BTreeMap, HashSet};
 
 use anyhow::ensure;
 
@@ -8,9 +8,10 @@ use super::recurse_objects;
 
 /// Checks if all refs are valid
 pub fn run_pass(device: &mut Device) -> anyhow::Result<()> {
-    let mut reffed_blocks = HashMap::new();
-    let mut reffed_registers = HashMap::new();
-    let mut reffed_commands = HashMap::new();
+    // Ordered maps so that the first reported problem does not depend on the hash seed
+    let mut reffed_blocks = BTreeMap::new();
+    let mut reffed_registers = BTreeMap::new();
+    let mut reffed_commands = BTreeMap::new();
 
     let mut real_blocks = HashSet::new();
     let mut real_registers = HashSet::new();
